@@ -117,6 +117,24 @@ XyzObs(c, o) ==
     ELSE IF ~o.fin THEN {"finite"}
     ELSE Fails(o.img = c.u, "xyz_value") \cup Fails(o.ul <= UnitTol52, "unit_length")
 
+\* ---- scale: a large array judged through the concatenation law -------------------------------------------
+\* scale  [sel, n, m, mode]  the m-point list of a frame tiled to n points, one array call
+\*        obs [k, err, len, fin, lx, el, eh, ul, d9, nbit, rng]
+\*        d9: largest on-sky distance of an element from the result the same code gives for that point in the
+\*        small call; nbit: number of elements not bit-identical to it (judged for shiftlon, where the arithmetic
+\*        is exact; informational for the conversions); rng: every element in the stated shiftlon interval
+ScaleWellFormed(c) == c.sel \in (1..17) \cup {0} /\ c.n >= c.m /\ c.m >= 1 /\ (c.sel = 0 => c.mode \in ShiftModes)
+ScaleObs(c, o) ==
+    IF o.err # "none" THEN {"no_error"}
+    ELSE IF o.len # c.n THEN {"scale_length"}
+    ELSE IF ~o.fin THEN {"finite"}
+    ELSE IF c.sel = 0
+    THEN Fails(o.nbit = 0, "scale_law") \cup Fails(o.rng, "shift_interval")
+    ELSE Fails(o.lx <= 0, "lat_range")
+         \cup Fails(HasLonRange(c.sel) => (LonLo(7) <= o.el /\ o.eh <= LonHi(7)), "lon_range")
+         \cup Fails(o.ul <= UnitTol52, "unit_length")
+         \cup Fails(o.d9 <= ScaleTol9, "scale_law")
+
 \* ---- dispatch ---------------------------------------------------------------------------------------
 WellFormed(c) ==
     CASE c.kind = "eqn" -> EqnWellFormed(c)
@@ -126,6 +144,7 @@ WellFormed(c) ==
       [] c.kind = "rot" -> RotWellFormed(c)
       [] c.kind \in {"shift", "shiftr"} -> ShiftWellFormed(c)
       [] c.kind = "xyz" -> XyzWellFormed(c)
+      [] c.kind = "scale" -> ScaleWellFormed(c)
       [] OTHER -> FALSE
 FailingObs(c, o) ==
     CASE c.kind = "eqn" -> EqnObs(c, o)
@@ -135,6 +154,7 @@ FailingObs(c, o) ==
       [] c.kind = "rot" -> RotObs(c, o)
       [] c.kind \in {"shift", "shiftr"} -> ShiftObs(c, o)
       [] c.kind = "xyz" -> XyzObs(c, o)
+      [] c.kind = "scale" -> ScaleObs(c, o)
 
 FailingRec(r) ==
     IF ~WellFormed(r.c) THEN {<<"malformed_case", 0>>}
